@@ -85,3 +85,8 @@ UNITS += [class_type_unit("C10"), discard_unit("C10")]
 
 from contracts.adapt_arms import dispatch_unit  # noqa: E402
 UNITS.append(dispatch_unit("C10"))
+
+
+from contracts.share import shared  # noqa: E402
+UNITS += shared("C10", "contracts.c06", 'ArgumentParser.validate.<locals>.check_values')
+UNITS += shared("C10", "contracts.c04", 'ArgumentParser.parse_object')
